@@ -107,6 +107,52 @@ def recall_case(res, rng, fam, metric, cfg, n):
     return gr, qr
 
 
+def big_block_case(res, rng):
+    """n just above the 16384-point block size of process_candidates, random initialisation, default tuning: the stop test must see
+    the updates of EVERY block (recall estimated on 200 sampled rows by brute force)"""
+    n, dim, k = 16384 + int(rng.integers(2, 40)), 8, 10
+    X = rng.standard_normal((n, dim)).astype(np.float32)
+    numba.set_num_threads(numba.config.NUMBA_NUM_THREADS)
+    idx = NNDescent(X, n_neighbors=k, random_state=int(rng.integers(10 ** 6)), tree_init=False)
+    gi, _ = idx.neighbor_graph
+    rows = rng.choice(n, size=200, replace=False)
+    D = ((X[rows][:, None, :].astype(np.float64) - X[None, :, :].astype(np.float64)) ** 2).sum(-1)
+    hit = 0
+    for a, r in enumerate(rows):
+        kth = np.partition(D[a], k - 1)[k - 1]
+        hit += sum(1 for v in gi[r] if v >= 0 and D[a, v] <= kth * (1 + 1e-6))
+    gr = hit / (200.0 * k)
+    case = {"family": "gaussian", "metric": "euclidean", "n": n, "tree_init": False, "note": "n > 16384: more than one block"}
+    res.case(("big-block", n), True, sample={**case, "graph_recall": round(gr, 4)}); res.count("recall_cases"); res.traces += 1
+    res.notes.append("recall big-block n=%d: graph %.3f" % (n, gr))
+    if gr < 0.90:
+        res.violation("recall:graph:gaussian:euclidean", "graph recall %.3f < 0.90 at n=%d (random init, default tuning; sampled rows)" % (gr, n), case)
+
+
+def warm_start_case(res, rng, metric):
+    """a supplied (random, hence poor) init_graph + init_dist must still be REFINED: the floor holds for every build configuration"""
+    n, dim, k = 1500, 8, 10
+    X = rng.standard_normal((n, dim)).astype(np.float32)
+    G = rng.integers(0, n, size=(n, k)).astype(np.int32)
+    D0 = np.array([[api_ref(metric, X[i], X[j]) for j in G[i]] for i in range(n)], dtype=np.float32)
+    for with_dist in (True, False):
+        idx = NNDescent(X, metric=metric, n_neighbors=k, random_state=int(rng.integers(10 ** 6)), init_graph=G,
+                        **({"init_dist": D0} if with_dist else {}))
+        D, kth = true_knn(X, metric, k)
+        gi, _ = idx.neighbor_graph
+        gr = recall_by_distance(D, kth, gi)
+        case = {"family": "gaussian", "metric": metric, "n": n, "init_graph": "random", "init_dist": with_dist}
+        res.case(("warm-start", metric, with_dist, n), True, sample={**case, "graph_recall": round(gr, 4)}); res.count("recall_cases"); res.traces += 1
+        res.notes.append("recall warm-start %s init_dist=%s: graph %.3f" % (metric, with_dist, gr))
+        if gr < 0.90:
+            res.violation("recall:graph:warm-start:%s" % metric, "graph recall %.3f < 0.90 from a supplied initial graph (init_dist=%s)" % (gr, with_dist), case)
+
+
+def api_ref(metric, x, y):
+    x = x.astype(np.float64); y = y.astype(np.float64)
+    return float(np.abs(x - y).sum()) if metric == "manhattan" else float(np.sqrt(((x - y) ** 2).sum()))
+
+
 def single_leaf_case(res, rng, metric):
     k = int(rng.choice([3, 5, 8])); n = int(rng.choice([k + 1, 9, 10]))     # n <= leaf_size = max(10, k)
     style = str(rng.choice(["gauss", "int"]))
@@ -159,6 +205,10 @@ def run(res, tier, seed, search):
     else:
         plan = [(f, m) for f in fams for m in modes]
         n = 2000
+    big_block_case(res, rng)
+    warm_start_case(res, rng, "manhattan")
+    if tier != "quick":
+        warm_start_case(res, rng, "euclidean")
     # the floors are statements about averages: average over the repetitions of each (family, metric, mode)
     reps = 2 if tier == "quick" and not search else 3
     for (fam, metric), mode in plan:
